@@ -49,8 +49,9 @@ VARIABLES rows,      \* sequence of [kind, params, cells]; row r of the code is 
           ecache,    \* arithmetic_results: <<c0, c1, X, Y, Z>> -> extension target (a pair of targets)
           tval,      \* (semantics) target -> value; only maintained when Sem
           last,      \* what the last call returned / observed
-          built      \* [done |-> FALSE], or the record describing the built circuit
-vars == <<rows, slots, used, nvirt, c2t, cache, ecache, tval, last, built>>
+          built,     \* [done |-> FALSE], or the record describing the built circuit
+          copies     \* copy constraints recorded by connect (explicit calls and the operand wiring of the gadgets)
+vars == <<rows, slots, used, nvirt, c2t, cache, ecache, tval, last, built, copies>>
 
 CONSTANTS Sem, InputVals         \* semantic layer on/off; values a fresh virtual target may take
 
@@ -73,7 +74,7 @@ W(r, c) == <<"w", r, c>>
 NumRows == Len(rows)
 
 Init == /\ rows = <<>> /\ slots = <<>> /\ used = {} /\ nvirt = 0 /\ c2t = <<>> /\ cache = <<>> /\ ecache = <<>>
-        /\ tval = <<>> /\ last = [ev |-> "init"] /\ built = [done |-> FALSE]
+        /\ tval = <<>> /\ last = [ev |-> "init"] /\ built = [done |-> FALSE] /\ copies = {}
 
 Put(f, k, v) == (k :> v) @@ f                       \* insert / overwrite
 Has(f, k) == k \in DOMAIN f
@@ -105,14 +106,14 @@ Virt(v) ==
   /\ ~built.done /\ v \in InputVals
   /\ nvirt' = nvirt + 1 /\ tval' = SetVal(tval, V(nvirt), v)
   /\ last' = [ev |-> "virt", res |-> V(nvirt), ng |-> NumRows]
-  /\ UNCHANGED <<rows, slots, used, c2t, cache, ecache, built>>
+  /\ UNCHANGED <<rows, slots, used, c2t, cache, ecache, built, copies>>
 
 Const(c) ==
   /\ ~built.done
   /\ LET s == ConstStep(c2t, nvirt, c) IN
        /\ c2t' = s[1] /\ nvirt' = s[2] /\ tval' = SetVal(tval, s[3], c)
        /\ last' = [ev |-> "const", c |-> c, res |-> s[3], ng |-> NumRows]
-  /\ UNCHANGED <<rows, slots, used, cache, ecache, built>>
+  /\ UNCHANGED <<rows, slots, used, cache, ecache, built, copies>>
 
 \* arithmetic(c0, c1, x, y, z) with use_base_arithmetic_gate
 Arith(c0, c1, x, y, z) ==
@@ -135,32 +136,33 @@ Arith(c0, c1, x, y, z) ==
           LET cs == ConstStep(m1, n1, FAdd(firstConst[2], secondConst[2])) IN
           /\ c2t' = cs[1] /\ nvirt' = cs[2] /\ tval' = SetVal(tv1, cs[3], FAdd(firstConst[2], secondConst[2]))
           /\ last' = [ev |-> "arith", path |-> "fold", res |-> cs[3], ng |-> NumRows, expect |-> E]
-          /\ UNCHANGED <<rows, slots, used, cache>>
+          /\ UNCHANGED <<rows, slots, used, cache, copies>>
      ELSE IF firstZero /\ c1 = FOne
      THEN /\ c2t' = m1 /\ nvirt' = n1 /\ tval' = tv1
           /\ last' = [ev |-> "arith", path |-> "addend", res |-> z, ng |-> NumRows, expect |-> E]
-          /\ UNCHANGED <<rows, slots, used, cache>>
+          /\ UNCHANGED <<rows, slots, used, cache, copies>>
      ELSE IF secondZero /\ xc[1] /\ FMul(xc[2], c0) = FOne
      THEN /\ c2t' = m1 /\ nvirt' = n1 /\ tval' = tv1
           /\ last' = [ev |-> "arith", path |-> "m1", res |-> (IF Mutant = "identity_wrong_operand" THEN x ELSE y),
                       ng |-> NumRows, expect |-> E]
-          /\ UNCHANGED <<rows, slots, used, cache>>
+          /\ UNCHANGED <<rows, slots, used, cache, copies>>
      ELSE IF secondZero /\ yc[1] /\ FMul(yc[2], c0) = FOne
      THEN /\ c2t' = m1 /\ nvirt' = n1 /\ tval' = tv1
           /\ last' = [ev |-> "arith", path |-> "m0", res |-> x, ng |-> NumRows, expect |-> E]
-          /\ UNCHANGED <<rows, slots, used, cache>>
+          /\ UNCHANGED <<rows, slots, used, cache, copies>>
      ELSE IF Has(cache, IF Mutant = "cache_ignores_consts" THEN <<FOne, FOne, x, y, z>> ELSE op)
      THEN /\ c2t' = m1 /\ nvirt' = n1 /\ tval' = tv1
           /\ last' = [ev |-> "arith", path |-> "cache",
                       res |-> cache[IF Mutant = "cache_ignores_consts" THEN <<FOne, FOne, x, y, z>> ELSE op],
                       ng |-> NumRows, expect |-> E]
-          /\ UNCHANGED <<rows, slots, used, cache>>
+          /\ UNCHANGED <<rows, slots, used, cache, copies>>
      ELSE LET fs == FindSlot("arith", <<c0, c1>>, 0, 0)
               row == fs[3]  i == fs[4]  out == W(row, 4 * i + 3) IN
           /\ slots' = fs[1] /\ rows' = fs[2] /\ used' = used \cup {<<row, i>>}
           /\ c2t' = m1 /\ nvirt' = n1
           /\ cache' = Put(cache, IF Mutant = "cache_ignores_consts" THEN <<FOne, FOne, x, y, z>> ELSE op, out)
           /\ tval' = SetVal(tv1, out, E)
+          /\ copies' = copies \cup {<<x, W(row, 4 * i)>>, <<y, W(row, 4 * i + 1)>>, <<z, W(row, 4 * i + 2)>>}
           /\ last' = [ev |-> "arith", path |-> "slot", res |-> out, ng |-> Len(fs[2]), expect |-> E,
                       fresh |-> <<row, i>> \notin used]
   /\ UNCHANGED <<built, ecache>>
@@ -188,7 +190,7 @@ ConstExt(e) ==
        /\ c2t' = s[1] /\ nvirt' = s[2]
        /\ tval' = SetValE(SetVal(tval, V(IF Has(c2t, FZero) THEN c2t[FZero] ELSE nvirt), FZero), s[3], e)
        /\ last' = [ev |-> "constext", res |-> s[3], ng |-> NumRows]
-  /\ UNCHANGED <<rows, slots, used, cache, ecache, built>>
+  /\ UNCHANGED <<rows, slots, used, cache, ecache, built, copies>>
 
 ArithExt(c0, c1, X, Y, Z) ==
   /\ ~built.done
@@ -209,24 +211,24 @@ ArithExt(c0, c1, X, Y, Z) ==
      THEN LET cs == ConstExtStep(m1, n1, EAdd(firstConst[2], secondConst[2])) IN
           /\ c2t' = cs[1] /\ nvirt' = cs[2] /\ tval' = SetValE(tv1, cs[3], EAdd(firstConst[2], secondConst[2]))
           /\ last' = [ev |-> "arithext", path |-> "fold", res |-> cs[3], ng |-> NumRows, expect |-> E]
-          /\ UNCHANGED <<rows, slots, used, ecache>>
+          /\ UNCHANGED <<rows, slots, used, ecache, copies>>
      ELSE IF firstZero /\ c1 = FOne
      THEN /\ c2t' = m1 /\ nvirt' = n1 /\ tval' = tv1
           /\ last' = [ev |-> "arithext", path |-> "addend", res |-> Z, ng |-> NumRows, expect |-> E]
-          /\ UNCHANGED <<rows, slots, used, ecache>>
+          /\ UNCHANGED <<rows, slots, used, ecache, copies>>
      ELSE IF secondZero /\ xc[1] /\ EScal(xc[2], c0) = EOne
      THEN /\ c2t' = m1 /\ nvirt' = n1 /\ tval' = tv1
           /\ last' = [ev |-> "arithext", path |-> "m1", res |-> Y, ng |-> NumRows, expect |-> E]
-          /\ UNCHANGED <<rows, slots, used, ecache>>
+          /\ UNCHANGED <<rows, slots, used, ecache, copies>>
      ELSE IF secondZero /\ yc[1] /\ EScal(yc[2], c0) = EOne
      THEN /\ c2t' = m1 /\ nvirt' = n1 /\ tval' = tv1
           /\ last' = [ev |-> "arithext", path |-> "m0", res |-> (IF Mutant = "ext_identity_wrong_operand" THEN Y ELSE X),
                       ng |-> NumRows, expect |-> E]
-          /\ UNCHANGED <<rows, slots, used, ecache>>
+          /\ UNCHANGED <<rows, slots, used, ecache, copies>>
      ELSE IF Has(ecache, op)
      THEN /\ c2t' = m1 /\ nvirt' = n1 /\ tval' = tv1
           /\ last' = [ev |-> "arithext", path |-> "cache", res |-> ecache[op], ng |-> NumRows, expect |-> E]
-          /\ UNCHANGED <<rows, slots, used, ecache>>
+          /\ UNCHANGED <<rows, slots, used, ecache, copies>>
      ELSE \* addend a constant zero: multiplication gate (3 * D wires per operation); else arithmetic gate
           LET mulOnly == IF Mutant = "mul_gate_for_any_const_addend" THEN zc[1] ELSE zc[1] /\ zc[2] = EZero
               fs == IF mulOnly THEN FindSlot("mulext", <<c0>>, 0, 0) ELSE FindSlot("arithext", <<c0, c1>>, 0, 0)
@@ -238,9 +240,23 @@ ArithExt(c0, c1, X, Y, Z) ==
           /\ c2t' = m1 /\ nvirt' = n1
           /\ ecache' = Put(ecache, op, out)
           /\ tval' = SetValE(tv1, out, G)
+          /\ copies' = copies \cup (IF mulOnly
+                                      THEN {<<X[1], W(row, 6 * i)>>, <<X[2], W(row, 6 * i + 1)>>, <<Y[1], W(row, 6 * i + 2)>>, <<Y[2], W(row, 6 * i + 3)>>}
+                                      ELSE {<<X[1], W(row, 8 * i)>>, <<X[2], W(row, 8 * i + 1)>>, <<Y[1], W(row, 8 * i + 2)>>, <<Y[2], W(row, 8 * i + 3)>>,
+                                            <<Z[1], W(row, 8 * i + 4)>>, <<Z[2], W(row, 8 * i + 5)>>})
           /\ last' = [ev |-> "arithext", path |-> (IF mulOnly THEN "mulslot" ELSE "slot"), res |-> out, ng |-> Len(fs[2]),
                       expect |-> E, fresh |-> <<row, i>> \notin used]
   /\ UNCHANGED <<built, cache>>
+
+\* connect(x, y): both ends must be routable (iop/wire.rs is_routable: column < num_routed_wires; virtual targets
+\* always are); a refused call panics and leaves the builder unchanged
+Routable(t) == t[1] = "v" \/ t[3] < (IF Mutant = "routable_le" THEN NR + 1 ELSE NR)
+Connect(x, y) ==
+  /\ ~built.done
+  /\ IF Routable(x) /\ Routable(y)
+     THEN copies' = copies \cup {<<x, y>>} /\ last' = [ev |-> "connect", ok |-> TRUE, ng |-> NumRows]
+     ELSE copies' = copies /\ last' = [ev |-> "connect", ok |-> FALSE, ng |-> NumRows]
+  /\ UNCHANGED <<rows, slots, used, nvirt, c2t, cache, ecache, tval, built>>
 
 \* random_access(index, list of 2^bits targets), bits >= 1: a fresh virtual target and a slot
 RandomAccess(bits, v) ==
@@ -250,14 +266,14 @@ RandomAccess(bits, v) ==
        /\ nvirt' = nvirt + 1 /\ tval' = SetVal(tval, V(nvirt), v)
        /\ last' = [ev |-> "ra", bits |-> bits, res |-> V(nvirt), ng |-> Len(fs[2]),
                    fresh |-> <<fs[3], fs[4]>> \notin used]
-  /\ UNCHANGED <<c2t, cache, ecache, built>>
+  /\ UNCHANGED <<c2t, cache, ecache, built, copies>>
 
 \* add_gate(gate, []) of a gate that is not slotted: "noop", or "const" (a ConstantGate row: NC cells)
 AddRow(kind) ==
   /\ ~built.done /\ kind \in {"noop", "const"}
   /\ rows' = Append(rows, [kind |-> kind, params |-> <<>>, cells |-> IF kind = "const" THEN NC ELSE 0])
   /\ last' = [ev |-> "row", kind |-> kind, ng |-> NumRows + 1]
-  /\ UNCHANGED <<slots, used, nvirt, c2t, cache, ecache, tval, built>>
+  /\ UNCHANGED <<slots, used, nvirt, c2t, cache, ecache, tval, built, copies>>
 
 \* ---- build ------------------------------------------------------------------------------------
 RECURSIVE GenCells(_, _)
@@ -293,7 +309,7 @@ Build(npi) ==
         /\ built' = [done |-> TRUE, assign |-> assign, degree |-> Len(rs3), before_pad |-> Len(rs2), kept |-> kept,
                      nconst |-> Cardinality(DOMAIN m1)]
         /\ last' = [ev |-> "build", ng |-> Len(rs3)]
-  /\ UNCHANGED <<slots, used, cache, ecache, tval>>
+  /\ UNCHANGED <<slots, used, cache, ecache, tval, copies>>
 
 \* ---- property level ---------------------------------------------------------------------------
 KindOfBits(kind) == IF kind \in {"arith", "arithext", "mulext"} THEN 0 ELSE CHOOSE b \in 1..6 : RaKind(b) = kind
@@ -334,6 +350,8 @@ BuildOk ==
           \A j \in 0..(Capacity(k[1], KindOfBits(k[1])) - 1) :
              (j < built.kept[k][2]) <=> (<<built.kept[k][1], j>> \in used)
 
-Inv == SlotsDistinct /\ SlotsTyped /\ UsedTyped /\ OpenSlotsExact /\ FullRowsFull /\ MeaningKept
+\* the permutation argument ranges over the routed columns only: every recorded copy must lie there
+CopiesCovered == \A c \in copies : \A k \in 1..2 : c[k][1] = "v" \/ c[k][3] < NR
+Inv == CopiesCovered /\ SlotsDistinct /\ SlotsTyped /\ UsedTyped /\ OpenSlotsExact /\ FullRowsFull /\ MeaningKept
        /\ ConstInjective /\ ConstBelowVirt /\ BuildOk
 =============================================================================
